@@ -274,6 +274,16 @@ def UOut.res : UOut → Option UDest
   | .ok d => some d
   | .fail _ => none
 
+/-- What the round-trip statements assume of the `net` package (trusted, checked per case by the
+harness tables): parsing the text of an address gives the address back (IPv4-mapped addresses print
+as IPv4, so they come back as 4 bytes), and `ParseIP` only returns 4-byte or non-mapped 16-byte
+results after the code's `To4`/`To16` cascade. -/
+structure IPText.RT (c : IPText) : Prop where
+  parse4 : ∀ b : Bytes, b.length = 4 → c.parse (str4 b) = some b
+  parse16 : ∀ b : Bytes, b.length = 16 → isV4Mapped b = false → c.parse (c.str16 b) = some b
+  shape : ∀ (h : Text) (b : Bytes), c.parse h = some b →
+    b.length = 4 ∨ (b.length = 16 ∧ isV4Mapped b = false)
+
 /-- Two host texts name the same destination: equal, or IP literals of the same address. -/
 def sameDest (c : IPText) (h1 h2 : Text) : Bool :=
   h1 == h2 || ((c.parse h1).isSome && c.parse h1 == c.parse h2)
